@@ -14,7 +14,17 @@ import json,glob
 ks=[]
 for f in sorted(glob.glob('/tmp/sm/out-$sid/replays/*.json')):
     r=json.load(open(f)); ks.append(r['key'] + ('' if r.get('failing_input') else ' [no-failing-input-found]'))
-print('; '.join(ks)[:300])
+ded=[]
+try:
+    ev=json.load(open('/tmp/sm/out-$sid/evidence/$prop.json'))
+    for fn in ev['coverage']['functions_under_contract']:
+        for o in (fn.get('failed') or []) + (fn.get('undecided') or []):
+            ded.append(fn['function'].split('::')[-1] + ':' + o)
+        if fn.get('error'):
+            ded.append(fn['function'].split('::')[-1] + ':(' + fn['error'].split(':')[0] + ')')
+except Exception as ex:
+    ded.append('?%s' % ex)
+print('DEDUCTIVE[' + '; '.join(ded)[:400] + '] KEYS[' + '; '.join(ks)[:500] + ']')
 PY
 )
   git -C /repo worktree remove --force $wt; rm -rf /tmp/sm/out-$sid
